@@ -12,7 +12,8 @@ Proof. vm_compute. reflexivity. Qed.
 Example C10_forms_count : Z.of_nat (length forms) = 1286 /\ forms_count = 1286.
 Proof. split; vm_compute; reflexivity. Qed.
 
-(* value-level behaviour of the BigUint / BigInt-by-BigInt operations owned by the other areas *)
+(* value-level behaviour of the BigUint / BigInt-by-BigInt operations owned by the other areas
+   ([big_ops_ok] is proved for the digit-level models in InstFormsOps.big_ops_digit_ok) *)
 Record big_ops := {
   bo_uop : opk -> Z -> Z -> outcome Z;      (* BigUint (op) BigUint leaves *)
   bo_uop_s : opk -> Z -> Z -> outcome Z;    (* BigUint (op) uN, (op)= uN *)
